@@ -75,6 +75,22 @@ func vc16Escapes(level int, target string) bool {
 	return false
 }
 
+// vc16Frame puts constant "../" pieces, one per directory between the root and
+// the link, in front of the symbolic part of a target, so that the symbolic
+// part is resolved exactly at the root boundary whatever the depth of the link
+// (a gate that is handed a path one level too deep shows with 2 symbolic bytes
+// instead of 3*depth+2).  up=0: never, up=1: always, up=2: either.
+func vc16Frame(up, depth int, target string) string {
+	if up == 0 || depth == 0 || (up == 2 && vBool()) {
+		return target
+	}
+	vCover("framed-to-the-root-boundary")
+	for i := 0; i < depth; i++ {
+		target = "../" + target
+	}
+	return target
+}
+
 // vc16LinkHeld asserts the property for one link that exists on disk after a
 // transition; its holding directory is `level` directories below the root.
 func vc16LinkHeld(level int, target string) {
@@ -114,6 +130,7 @@ func VerifC16Transition() {
 	links := vParam("links", 2)
 	wrap := vParam("wrap", 0) == 1
 	pad := vParam("pad", 0)
+	up := vParam("up", 0)
 
 	w := vfNewWorld(0, false)
 	root := &vfNode{kind: vfKDir, perm: 0700, fileID: 1}
@@ -148,14 +165,18 @@ func VerifC16Transition() {
 			target = string(b) + target
 			vCover("long-target")
 		}
+		path := vtJoin(dirs[depth], names[i])
+		wrapped := wrap && vBool()
+		if wrapped {
+			depth++
+		}
+		target = vc16Frame(up, depth, target)
 		link := &Entry{Kind: EntryKind_SymbolicLink, Target: target}
 		nw := link
-		path := vtJoin(dirs[depth], names[i])
-		if wrap && vBool() {
+		if wrapped {
 			// the link arrives as content of a created directory (createDirectory
 			// computes the content path)
 			nw = &Entry{Kind: EntryKind_Directory, Contents: map[string]*Entry{"a": link}}
-			depth++
 			vCover("link-inside-created-directory")
 		}
 		vNote("change: create " + vtShow(nw) + " at " + path)
